@@ -174,6 +174,7 @@ class Executor:
         self.pool = []      # [{da, snap, desc}]
         self.steps = []
         self.stepinfo = []  # per executed call: (fn, dtype, layout, backend, derived, nontrivial)
+        self.notes = []     # extra class labels collected while executing
 
     # ---- step: new raster
     def new(self, st_):
@@ -195,7 +196,8 @@ class Executor:
         attrs = {"res": (st_["sx"], st_["sy"]), "meta": [1, [2, 3]]} if st_.get("attrs") else {}
         d = xr.DataArray(a, dims=[dy, dx], coords=coords, attrs=attrs, name=st_.get("name"))
         self.pool.append({"da": d, "snap": _snap(d), "desc": {"dtype": st_["spec"]["dtype"], "layout": st_["layout"], "backend": st_["backend"], "derived": False,
-                                                              "yx": (dy, dx) == ("y", "x")}})
+                                                              "yx": (dy, dx) == ("y", "x"),
+                                                              "inf": any(v in ("inf", "-inf") for row in st_["spec"]["data"] for v in row)}})
 
     def _pick(self, idx, shape=None, pred=None):
         n = len(self.pool)
@@ -229,6 +231,10 @@ class Executor:
         d0 = descs[0]
         nontrivial = any(d["layout"] != "C" or d["backend"] == "dask" or d["dtype"] != "float64" or d["derived"] for d in descs)
         self.stepinfo.append((name, d0["dtype"], d0["layout"], d0["backend"], d0["derived"], nontrivial))
+        # +-inf cells anywhere, and NaN cells for the functions flagged `finite` (viewshed): whether the function accepts them is not this
+        # property's subject (an exception is tolerated); that it leaves them alone is
+        tol = any(d.get("inf") for d in descs) or bool(flags.get("finite") and any(
+            self.pool[i]["snap"]["values"].dtype.kind == "f" and not np.isfinite(self.pool[i]["snap"]["values"]).all() for i in idxs))
         try:
             with contextlib.redirect_stdout(io.StringIO()):
                 out = f(ins, st_.get("variant", 0))
@@ -236,13 +242,30 @@ class Executor:
             if "read-only" in str(e) or "not writeable" in str(e):
                 r.fail("inplace_write_attempt[%s]" % name, "ValueError on a read-only input: %s" % e)
                 return "failed"
+            if not tol:
+                raise
+            out = None
+        except (Violation, HarnessError):
             raise
+        except Exception:  # noqa
+            if not tol:
+                raise
+            out = None
+        if tol:
+            self.notes.append("input_with_nonfinite_cell:%s[%s]" % (name, "raised" if out is None else "ok"))
         self._check_all(r, name, flags, idxs, "after call")
         if r.fails:
             return "failed"
         import xarray as xr
         if isinstance(out, xr.DataArray):
-            self._check_output(r, name, flags, ins, idxs, out, st_)
+            try:
+                self._check_output(r, name, flags, ins, idxs, out, st_)
+            except (Violation, HarnessError):
+                raise
+            except Exception:  # noqa
+                if not tol:
+                    raise
+                return "skipped"   # a lazy result that fails to compute on +-inf cells
             if r.fails:
                 return "failed"
             if st_.get("keep", True) and out.ndim == 2 and out.shape[0] >= 3 and out.shape[1] >= 3 and out.dtype.kind in "fiu" and not flags.get("view"):
@@ -259,6 +282,9 @@ class Executor:
             return False   # called with its default x='x', y='y' / documented y-x coordinate names
         if first is not None and tuple(first["da"].dims) != tuple(d.dims):
             return False   # rasters of one call share their dimension names
+        if first is not None and any(dn in first["da"].coords and dn in d.coords and not np.array_equal(first["da"][dn].values, d[dn].values)
+                                     for dn in d.dims):
+            return False   # rasters of one call lie on one grid (xr.Dataset would otherwise outer-join them into NaN-padded float layers)
         if first is not None and (flags.get("same_backend") or True) and (first["desc"]["backend"] != desc["backend"]):
             return False   # validate_arrays: all inputs of one call share a backend
         if flags.get("float_only") and d.dtype.kind != "f":
@@ -272,8 +298,6 @@ class Executor:
             if v.min() < 1 or v.max() > 3:
                 return False
         v = e["snap"]["values"]
-        if flags.get("finite") and not np.isfinite(v.astype("float64")).all():
-            return False
         if flags.get("nonconstant"):
             fv = v.astype("float64")
             fv = fv[np.isfinite(fv)]
@@ -376,6 +400,7 @@ def body_seq(case, ctx):
     r.nt = any(s[5] for s in ex.stepinfo)
     for (fn, dtype, layout, backend, derived, nt) in ex.stepinfo:
         r.label("fn=" + fn, "in=%s/%s/%s%s" % (dtype, layout, backend, "/derived" if derived else ""))
+    r.label(*ex.notes)
     r.weight = max(1, len(ex.stepinfo))
     ctx_steps = getattr(ctx, "c10_steps", None)
     if ctx_steps is not None:
@@ -394,7 +419,10 @@ def new_step(draw, dtype=None, layout=None, backend=None, dtypes=None):
     h, w = draw(st.integers(3, 7)), draw(st.integers(3, 7))
     dtype = dtype or draw(st.sampled_from(dtypes or S.ALL_DTYPES))
     if dtype.startswith("float"):
-        pal = draw(st.sampled_from([[0.0, 1.0, 2.0, 3.0, 5.0], [0.5, 1.5, 2.0, 0.0, 4.25, "nan"], [1.0, 2.0, 3.0, 4.0, 5.0, 0.0]]))
+        pal = draw(st.sampled_from([[0.0, 1.0, 2.0, 3.0, 5.0], [0.5, 1.5, 2.0, 0.0, 4.25, "nan"], [1.0, 2.0, 3.0, 4.0, 5.0, 0.0],
+                                    [0.0, 1.0, 2.0, 3.0, 5.0], [0.5, 1.5, 2.0, 0.0, 4.25, "nan"], [1.0, 2.0, 3.0, 4.0, 5.0, 0.0],
+                                    # +-inf cells are values like any other for "no function changes the values of its inputs"
+                                    [1.0, 2.0, 3.0, 0.0, 5.0, 1.0, 2.0, 3.0, "inf"], [0.5, 2.0, 0.0, 4.0, 0.5, 2.0, 4.0, "-inf"]]))
     else:
         pal = [0, 1, 2, 3, 4, 5]
     flat = draw(st.lists(st.sampled_from(pal), min_size=h * w, max_size=h * w))
@@ -490,6 +518,7 @@ def run_machine(ctx, max_examples, step_count, fast_only=False, dtypes=None):
                 if nt and key not in seen:
                     seen.add(key)
                 r.label("fn=" + fn)
+            r.label(*self.ex.notes)
             r.weight = max(1, len(self.ex.stepinfo))
             ctx.evaluations += r.weight
             for c in r.cls:
@@ -521,12 +550,15 @@ BASE = [[1, 2, 3, 1, 0], [2, 0, 1, 3, 2], [3, 1, 2, 0, 1], [1, 3, 0, 2, 3], [2, 
 
 def matrix_cases(names, combos):
     for fn in names:
-        for (dtype, layout, backend) in combos:
+        for combo in [tuple(c) + (None,) for c in combos] + [("float64", "C", "numpy", "inf"), ("float32", "F", "numpy", "-inf")]:
+            dtype, layout, backend, special = combo
             steps = []
             for k in range(3):
                 data = [[(v + k) % 4 if k else v for v in row] for row in BASE]
                 if k == 1:
                     data = [[(v % 3) + 1 for v in row] for row in BASE]
+                elif special:
+                    data[1][2] = special    # one +-inf cell: a value like any other for "inputs are left untouched"
                 steps.append({"op": "new", "spec": {"dtype": dtype if not (k == 1 and fn.startswith(("zonal_apply", "local_popularity", "local_rank")) and not dtype.startswith(("int", "uint"))) else "int32",
                                                      "data": data},
                               "layout": layout, "backend": backend, "chunks": [[2, 3], [1, 4]], "sy": 1.0, "sx": 2.0, "y0": 0.0, "x0": 5.0,
@@ -535,7 +567,7 @@ def matrix_cases(names, combos):
                 steps[0], steps[1] = steps[1], steps[0]
             for var in ((1, 2, 3, 4, 6, 11) if reg()[fn][1].get("slow") else range(12)):
                 steps.append({"op": "call", "fn": fn, "args": [0, 1, 2], "variant": var})
-            yield {"sub": "seq", "steps": steps, "matrix": [fn, dtype, layout, backend]}
+            yield {"sub": "seq", "steps": steps, "matrix": [fn, dtype, layout, backend] + ([special] if special else [])}
 
 
 def shards(tier):
@@ -546,7 +578,7 @@ def shards(tier):
     for g in range(ng):
         mine = names[g::ng]
         out.append(("matrix#%d" % g, lambda ctx, mine=mine: drive_enum(ctx, body_seq, matrix_cases(mine, combos), stop_on_first=False,
-                                                                      space="registry function x input class matrix: %s x %d classes" % (mine, len(combos)), size=len(mine) * len(combos))))
+                                                                      space="registry function x input class matrix: %s x %d classes" % (mine, len(combos)), size=len(mine) * (len(combos) + 2))))
     nm, ex, steps = (8, 7, 25) if tier == "quick" else (10, 60, 50)
     others = [d for d in S.ALL_DTYPES if d != "float64"]
     for i in range(nm):
